@@ -54,6 +54,9 @@ type ShipConnection struct {
 	handshakeTimerType     timeoutTimerType
 	handshakeTimerStopChan chan struct{}
 	handshakeTimerMux      sync.Mutex
+	// generation of the most recently armed timer, increased on every arm and stop
+	// a timer goroutine only delivers its timeout if its generation is still the current one
+	handshakeTimerGeneration uint64
 
 	lastReceivedWaitingValue time.Duration // required for Prolong-Request-Reply-Timer
 
